@@ -12,6 +12,7 @@ import (
 	"sort"
 	"strings"
 	"sync"
+	"sync/atomic"
 	"time"
 )
 
@@ -78,6 +79,9 @@ func LoadKnown(verifDir string) ([]KnownFinding, error) {
 	}
 	return k, nil
 }
+
+// runWatchdog bounds one simulated run (wall clock; harness condition only).
+var runWatchdog = 300 * time.Second
 
 type workerMsg struct {
 	Kind   string  `json:"k"` // begin | end
@@ -219,6 +223,7 @@ func runBatch(cs *CheckSpec, b Batch, batchIdx int) *batchAgg {
 				}
 				rd := bufio.NewReaderSize(stdout, 1<<20)
 				var cur uint64
+				var timedOut atomic.Bool
 				inRun := false
 				alive := true
 				for alive {
@@ -228,6 +233,12 @@ func runBatch(cs *CheckSpec, b Batch, batchIdx int) *batchAgg {
 					}
 					fmt.Fprintf(stdin, "%d\n", seed)
 					cur, inRun = seed, true
+					// watchdog on the worker (harness condition, never a violation): a run
+					// that exceeds it is killed and reported as harness trouble (exit 2)
+					wd := time.AfterFunc(runWatchdog, func() {
+						timedOut.Store(true)
+						cmd.Process.Kill()
+					})
 					for {
 						line, err := rd.ReadBytes('\n')
 						if err != nil {
@@ -244,6 +255,7 @@ func runBatch(cs *CheckSpec, b Batch, batchIdx int) *batchAgg {
 							break
 						}
 					}
+					wd.Stop()
 				}
 				stdin.Close()
 				io.Copy(io.Discard, rd)
@@ -251,6 +263,11 @@ func runBatch(cs *CheckSpec, b Batch, batchIdx int) *batchAgg {
 				if inRun {
 					// the worker died inside a run: attribute to the announced seed
 					r := &Result{Engine: b.Engine, Seed: cur}
+					if timedOut.Load() {
+						r.Harness = fmt.Sprintf("run exceeded the %v watchdog and was killed", runWatchdog)
+						absorb(r)
+						continue
+					}
 					if v, ok := e.CrashViolation(errTail.String(), b.Opt); ok {
 						r.Violations = append(r.Violations, v)
 						if g, isGen := e.(Generator); isGen {
